@@ -1245,23 +1245,30 @@ func (e *Exec) parseHex(s Str, bits int) (Int, bool) {
 	if n-i > 15 {
 		panic(unsupported("ParseInt base 16 on more than 15 symbolic digits"))
 	}
+	// validity of all digits is one formula (a single branch); the digit value is an if-then-else, so the
+	// number of paths does not grow with the number of symbolic hex digits
+	valid := Bool{C: true}
 	acc := Int{W: 64, Sg: true}
+	var hexDigits []Int
 	for ; i < n; i++ {
 		b := s.At(i)
-		var d Int
 		b64 := e.intConv(b, 64, true)
-		switch {
-		case e.branch(e.isDigit(b)):
-			d = e.intBin(token.SUB, b64, ci('0'))
-		case e.branch(e.inRangeI(b, 'a', 'f')):
-			d = e.intBin(token.SUB, b64, ci('a'-10))
-		case e.branch(e.inRangeI(b, 'A', 'F')):
-			d = e.intBin(token.SUB, b64, ci('A'-10))
-		default:
-			return ci(0), false
+		isD, isL, isU := e.isDigit(b), e.inRangeI(b, 'a', 'f'), e.inRangeI(b, 'A', 'F')
+		valid = e.and(valid, e.or(isD, e.or(isL, isU)))
+		d := e.iteInt(isD, e.intBin(token.SUB, b64, ci('0')), e.iteInt(isL, e.intBin(token.SUB, b64, ci('a'-10)), e.intBin(token.SUB, b64, ci('A'-10))))
+		if d.S != nil {
+			// digit value is within 0..15 whenever the string is valid
+			nt := *d.S
+			nt.Lo, nt.Hi, nt.Bnd = 0, 15, true
+			d.S = &nt
 		}
+		hexDigits = append(hexDigits, d)
 		acc = e.intBin(token.ADD, e.intBin(token.MUL, acc, ci(16)), d)
 	}
+	if !e.branch(valid) {
+		return ci(0), false
+	}
+	e.registerPositional(acc, hexDigits, 16)
 	if neg {
 		acc = e.intNeg(acc)
 	}
@@ -1327,4 +1334,27 @@ func (e *Exec) parseFloatSym(s Str) Value {
 	}
 	den := Float{W: 64, C: math.Pow10(nfrac)}
 	return Tuple{e.floatBin(token.QUO, f, den), nilErr()}
+}
+
+// registerPositional records that acc = sum digits[i] * base^(n-1-i) with 0 <= digits[i] < base, i.e. that the digits
+// are acc's mixed-radix decomposition over the powers of base (INT mode), so that later divisions of acc by powers of
+// the base resolve structurally.
+func (e *Exec) registerPositional(acc Int, digits []Int, base int64) {
+	if e.mode != ModeINT || acc.S == nil || len(digits) < 2 || noRadix {
+		return
+	}
+	if _, ok := e.radixes[acc.S.Name]; ok {
+		return
+	}
+	r := &radix{x: acc.S}
+	p := int64(1)
+	for i := 1; i < len(digits); i++ {
+		p *= base
+	}
+	for i := 0; i < len(digits)-1; i++ {
+		r.cs = append(r.cs, p)
+		p /= base
+	}
+	r.ds = append(r.ds, digits...)
+	e.radixes[acc.S.Name] = r
 }
